@@ -1,3 +1,65 @@
 -- GENERATED from /repo by /verif/extract (gvx) on every run: do not edit
 namespace GV.Gen.GoLite
+
+set_option linter.unusedVariables false
+/-- wrap to an unsigned w-bit value -/
+def wrapU (w : Nat) (x : Int) : Int := x % (2 ^ w)
+/-- wrap to a signed w-bit value (two's complement) -/
+def wrapS (w : Nat) (x : Int) : Int := (x + 2 ^ (w - 1)) % (2 ^ w) - 2 ^ (w - 1)
+
+/-- translated from ledger/common/rules.go:115 `CalculateMinFee` -/
+def calculateMinFee (bodySize : Int) (minFeeA : Int) (minFeeB : Int) : Int × Bool :=
+  if decide (bodySize < 0) then
+    (0, true)
+  else
+    let uBodySize : Int := wrapU 64 (wrapU 64 (bodySize))
+    let hi : Int := (wrapU 64 (minFeeA) * uBodySize) / 2 ^ 64
+    let lo : Int := (wrapU 64 (minFeeA) * uBodySize) % 2 ^ 64
+    if decide (hi ≠ 0) then
+      (0, true)
+    else
+      let sum : Int := (lo + wrapU 64 (minFeeB) + 0) % 2 ^ 64
+      let carry : Int := (lo + wrapU 64 (minFeeB) + 0) / 2 ^ 64
+      if decide (carry ≠ 0) then
+        (0, true)
+      else
+        (sum, false)
+
+/-- translated from ledger/common/common.go:2247 `cborArrayHeaderSize` -/
+def cborArrayHeaderSize (length : Int) : Int :=
+  if decide (length < 24) then
+    1
+  else
+    if decide (length < 256) then
+      2
+    else
+      if decide (length < 65536) then
+        3
+      else
+        5
+
+/-- translated from ledger/common/common.go:2260 `AddInt64Checked` -/
+def addInt64Checked (a : Int) (b : Int) : Int × Bool :=
+  let sum : Int := wrapS 64 (a + b)
+  if (((decide (b > 0) && decide (sum < a))) || ((decide (b < 0) && decide (sum > a)))) then
+    (0, false)
+  else
+    (sum, true)
+
+def largestPowerOfTwoBelow_loop1 : Nat → Int → Int → Int
+  | 0, n, power => power
+  | fuel + 1, n, power =>
+    if decide (wrapS 64 (power * 2) < n) then
+      let power := (
+      let power : Int := wrapS 64 (power * 2)
+      power)
+      largestPowerOfTwoBelow_loop1 fuel n power
+    else power
+
+/-- translated from ledger/byron/merkle.go:64 `largestPowerOfTwoBelow` -/
+def largestPowerOfTwoBelow (n : Int) : Int :=
+  let power : Int := 1
+  let power := largestPowerOfTwoBelow_loop1 (64) n power
+  power
+
 end GV.Gen.GoLite
